@@ -234,9 +234,29 @@ namespace Track
 	}
       else if (state == DecodeState::LookingForRecord)
 	{
+	  // The record belonging to the sector ID we just read must
+	  // appear before the next sector ID.  If another ID address
+	  // mark comes first, the record mark for this sector was
+	  // unreadable; pairing this ID with a later sector's record
+	  // would return that sector's data under the wrong address.
+	  const size_t search_start = thisbit;
+	  const auto next_id = bits.scan_for(search_start,
+					     0xAAAAAAAAF57E,
+					     0xFFFFFFFFFFFF);
 	  std::optional<unsigned int> found = find_record_address_mark();
 	  if (!found)
 	    break;
+	  if (next_id && next_id->first < thisbit)
+	    {
+	      if (verbose)
+		{
+		  std::cerr << "No record found for sector " << sec.address
+			    << " before the next sector ID\n";
+		}
+	      thisbit = search_start;
+	      state = DecodeState::LookingForAddress;
+	      continue;
+	    }
 	  const bool discard_record = *found == 0xF56A;
 	  if (verbose)
 	    {
